@@ -329,11 +329,15 @@ def parse_state(txt):
 
 
 def violating_states(r):
-    """For runs with -continue: list of (invariant, {var: parsed value}) for the last state of every reported violation."""
+    """For runs with -continue: list of (invariant, {var: parsed value}) for the last state of every reported violation
+    (handles both 'is violated.' + behaviour and 'is violated by the initial state:')."""
     res = []
-    parts = re.split(r'Error: Invariant (\S+) is violated[^\n]*\n', r.out)
-    for i in range(1, len(parts), 2):
-        inv, body = parts[i], parts[i + 1]
+    parts = re.split(r'Error: Invariant (\S+) is violated([^\n]*)\n', r.out)
+    for i in range(1, len(parts), 3):
+        inv, how, body = parts[i], parts[i + 1], parts[i + 2]
+        if 'initial state' in how:
+            res.append((inv, parse_state(body.split('\n\n')[0])))
+            continue
         states = re.split(r'\nState \d+: [^\n]*\n', '\n' + body)
         if len(states) < 2:
             res.append((inv, {}))
